@@ -64,6 +64,9 @@ structure DefJ where
   ordO : Option OrdType := none
   hashO : Option HashType := none
   cloneO : Option CloneType := none
+  dbgO : Option DbgType := none
+  derefO : Option DerefType := none
+  derefMutO : Option DerefType := none
   deriving Inhabited
 
 structure St where
@@ -177,12 +180,14 @@ def DefJ.cloneType (d : DefJ) : CloneType :=
   else .struct (mk (d.variants[0]!))
 
 def DefJ.dbgType (d : DefJ) : DbgType :=
+  if let some t := d.dbgO then t else
   let mk (v : VariantJ) : DbgVariant :=
     { name := v.name, shape := v.shape, fields := v.fields.toList.map (·.debug), vname := v.vname, namedField := v.namedField }
   if d.isEnum then .enum d.name (d.variants.toList.map mk) d.tname
   else .struct { mk (d.variants[0]!) with name := d.name } d.tname
 
 def DefJ.derefType (d : DefJ) (mutable : Bool) : DerefType :=
+  if let some t := (if mutable then d.derefMutO else d.derefO) then t else
   let mk (v : VariantJ) : DerefVariant :=
     { name := v.name, shape := v.shape, fields := v.fields.toList.map fun f => if mutable then f.derefMut else f.deref }
   if d.isEnum then .enum (d.variants.toList.map mk)
@@ -316,8 +321,16 @@ def defE2E (dj : DefJ) (rec : Json) (methods : Json) : Except String DefJ :=
     let cloneO ← if c.traits .clone then
         (fail "Clone scan" (Educe.Bridge.cloneScan c (Educe.Bridge.cloneEnableMethod c))).map (·.map (Educe.Bridge.cloneType num d.kind))
       else pure none
+    let firstMeta (t : Educe.Attr.TraitId) : Option Educe.Attr.TraitMeta := (map.find? fun p => p.1 == t).bind fun p => p.2.head?
+    let dbgO ← if c.traits .debug then
+        match firstMeta .debug with
+        | some m => fail "Debug scan" (Educe.Bridge.dbgScan c m num)
+        | none => pure none
+      else pure none
+    let derefO := if c.traits .deref then some (Educe.Bridge.derefType (Educe.Bridge.derefFieldFlag c .deref) d) else none
+    let derefMutO := if c.traits .derefMut then some (Educe.Bridge.derefType (Educe.Bridge.derefFieldFlag c .derefMut) d) else none
     let ordMode := if c.traits .ord && c.traits .partialOrd then "both" else if c.traits .ord then "ord" else if c.traits .partialOrd then "partialord" else dj.ordMode
-    pure { dj with eqO := eqO, hashO := hashO, ordO := ordO, cloneO := cloneO,
+    pure { dj with eqO := eqO, hashO := hashO, ordO := ordO, cloneO := cloneO, dbgO := dbgO, derefO := derefO, derefMutO := derefMutO,
                    copy := if c.traits .clone then c.traits .copy else dj.copy, ordMode := ordMode }
 
 def handle (st : St) (j : Json) : St × Option Json :=
